@@ -555,12 +555,6 @@ func (r *runner) exec(st Step, req api.QueryRequest) (*api.QueryResult, error) {
 				want = seen
 				r.coqApps[len(r.coqApps)-1] = append(r.coqApps[len(r.coqApps)-1], r.winApps...)
 				r.winApps = nil
-				if n := len(r.winObs); n > 0 && r.winObsAdded {
-					r.winObs = r.winObs[:n-1] // (the window observation is about a flush the page does not read in full)
-					if r.kTrunc == len(r.pages) {
-						r.kTrunc = -1
-					}
-				}
 			}
 		}
 	} else {
@@ -1042,13 +1036,22 @@ func (r *runner) winQuery(req *api.QueryRequest, st Step) (*api.QueryResult, err
 		r.winHits++
 	}
 	r.winApps = apps
-	if err == nil && fired && r.winRolled && res != nil && r.kTrunc < 0 {
-		// the position right after the window, as far as it can be observed: where the first event lies that the page
-		// delivered from behind the data the reader had seen
+	if err == nil && fired && res != nil {
+		// the observation for the model's eof_step: chunks before, chunks after, and the position the reader went on from -
+		// where the first event lies that the page delivered from behind the data it had seen (the code: the flush is read
+		// by this very page), or the returned position when it delivered none of it
+		lay := func(l []chunkInfo) string {
+			var cs []string
+			for _, c := range l {
+				cs = append(cs, GTuple(GN(c.Id), GN(uint64(c.Cnt))))
+			}
+			return GList(cs)
+		}
 		nBefore := 0
 		for _, c := range before {
 			nBefore += c.Cnt
 		}
+		beyond := false
 		for _, e := range res.Events {
 			if e.Tags != pr.tags {
 				continue
@@ -1063,16 +1066,8 @@ func (r *runner) winQuery(req *api.QueryRequest, st Step) (*api.QueryResult, err
 				off := 0
 				for _, c := range pr.layout {
 					if k < off+c.Cnt {
-						lay := func(l []chunkInfo) string {
-							var cs []string
-							for _, c := range l {
-								cs = append(cs, GTuple(GN(c.Id), GN(uint64(c.Cnt))))
-							}
-							return GList(cs)
-						}
 						r.winObs = append(r.winObs, GTuple(lay(before), lay(pr.layout), GTuple(GN(c.Id), GN(uint64(k-off)))))
-						r.kTrunc = len(r.pages)
-						r.winObsAdded = true
+						beyond = true
 						break
 					}
 					off += c.Cnt
@@ -1080,20 +1075,11 @@ func (r *runner) winQuery(req *api.QueryRequest, st Step) (*api.QueryResult, err
 				break
 			}
 		}
-	}
-	if err == nil && fired && !r.winRolled && res != nil {
-		// the observation for the model's eof_step: chunks before, chunks after, the position the page returned
-		if pm, perr := parsePos(res.NextQueryRequest.Pos); perr == nil {
-			if p, ok := pm[pr.src]; ok {
-				lay := func(l []chunkInfo) string {
-					var cs []string
-					for _, c := range l {
-						cs = append(cs, GTuple(GN(c.Id), GN(uint64(c.Cnt))))
-					}
-					return GList(cs)
+		if !beyond {
+			if pm, perr := parsePos(res.NextQueryRequest.Pos); perr == nil {
+				if p, ok := pm[pr.src]; ok {
+					r.winObs = append(r.winObs, GTuple(lay(before), lay(pr.layout), GTuple(GN(uint64(p.CId)), GN(uint64(p.Idx)))))
 				}
-				r.winObs = append(r.winObs, GTuple(lay(before), lay(pr.layout), GTuple(GN(uint64(p.CId)), GN(uint64(p.Idx)))))
-				r.winObsAdded = true
 			}
 		}
 	}
